@@ -27,9 +27,20 @@ func (k tok) String() string { return fmt.Sprintf("%v(%q)", k.tt, k.text) }
 
 var nonASCII = []string{"é", "ß", "中", "😀", " ", "​"}
 
-// a non-hex escape: backslash + any character that is not a hex digit, newline or NUL; a hex escape is always closed by a space
+// a non-hex escape: backslash + any character that is not a hex digit, newline or NUL; a hex escape is six digits, or fewer digits closed by one whitespace character or by a character that is not a hex digit
 func escape(t *rapid.T) string {
 	if rapid.Bool().Draw(t, "hexesc") {
+		switch rapid.IntRange(0, 3).Draw(t, "hexform") {
+		case 0:
+			// six hex digits need no terminator: a following name character (also a hex digit) is not part of the escape
+			// (one whitespace character directly behind the digits would be: that is form 2)
+			return `\` + rapid.StringMatching(`[0-9a-fA-F]{6}`).Draw(t, "hex6") + rapid.SampledFrom([]string{"0", "1", "a", "F", "g", "-", "_"}).Draw(t, "hex7")
+		case 1:
+			// fewer than six digits are ended by any character that is not a hex digit
+			return `\` + rapid.StringMatching(`[0-9a-fA-F]{1,5}`).Draw(t, "hex5") + rapid.SampledFrom([]string{"g", "z", "-", "_", "é", "G"}).Draw(t, "hexend")
+		case 2:
+			return `\` + rapid.StringMatching(`[0-9a-fA-F]{1,6}`).Draw(t, "hex") + rapid.SampledFrom([]string{" ", "\t", "\n", "\f"}).Draw(t, "hexws")
+		}
 		return `\` + rapid.StringMatching(`[0-9a-fA-F]{1,6}`).Draw(t, "hex") + " "
 	}
 	return `\` + rapid.SampledFrom([]string{"{", "}", "(", ")", " ", "\\", "\"", "'", "g", "z", "-", "+", ".", "#", "@", "é", "😀", ";", ":", "/", "*", "\t"}).Draw(t, "escchar")
